@@ -158,6 +158,23 @@ func (e *Engine) verifyFunc(key string) (res *FuncResult) {
 				x.obls = append(x.obls, o)
 			}
 		}
+		// propagates clauses: a failed call of the named callee on this path means this function fails
+		for _, p := range c.Propagates {
+			flag, _ := st2.ghostV[failedKey(p.Label)].(*Term)
+			if flag == nil || flag.IsFalse() || len(rets) == 0 {
+				continue
+			}
+			ev, ok := rets[len(rets)-1].(IfaceV)
+			if !ok {
+				x.fail("contract %s: propagates needs a last result of type error", c.Key)
+			}
+			g := Implies(flag, Not(And(Eq(ev.Tag, IntLit(0)), Eq(ev.Val, IntLit(0)))))
+			o := &Obligation{Fn: x.key, Kind: "propagates." + p.Label, Props: c.Props, PC: append([]*Term(nil), st2.pc...), Goal: g, PathID: x.pathID, Inputs: x.inputs}
+			if len(p.Props) > 0 {
+				o.Props = p.Props
+			}
+			x.obls = append(x.obls, o)
+		}
 		x.frameCheck(st2, penv)
 	})
 	return
